@@ -7,7 +7,9 @@ metadata the harness writes a real kernel module and a one-kernel algorithm,
 runs the real kernel-stub generator and the real PSy-layer generator, itemises
 both argument lists with their declarations (c21_item) and hands metadata +
 both item lists back to TLC (Trace_LFRicArgOrder.tla), which decides the
-clauses SameCount, CallMatchesStub, StubFollowsDoc, CallFollowsDoc.'''
+clauses SameCount, CallMatchesStub, StubFollowsDoc, CallFollowsDoc, and - for
+the PSyIR form of the call (KernCallArgList.psyir_arglist, the expressions and
+symbol types that are passed) - PsyirCallMatchesStub, PsyirCallMatchesText.'''
 import contextlib
 import io
 import json
@@ -17,7 +19,8 @@ import shutil
 
 from pv import core
 from pv import c21_gen as gen
-from pv.c21_item import Unsupported, itemise_call, itemise_stub
+from pv.c21_item import (Unsupported, itemise_call, itemise_psyir,
+                         itemise_stub)
 
 PROP = "C21"
 
@@ -46,7 +49,7 @@ def _one(md, md_id, tmp):
     with open(apath, "w") as f:
         f.write(gen.algorithm_text(md, md_id))
     res = {"id": md_id, "md": md, "hs": False, "stub": [], "hc": False,
-           "call": [], "notes": {}}
+           "call": [], "hp": False, "pcall": [], "notes": {}}
     sink = io.StringIO()
     try:
         with contextlib.redirect_stdout(sink):
@@ -74,6 +77,19 @@ def _one(md, md_id, tmp):
             res["hc"] = True
         except Unsupported as err:
             res["notes"]["call_unsupported"] = str(err)
+        # the PSyIR form of the same call: the expressions (and the symbols
+        # with their types) that KernCallArgList passes
+        try:
+            from psyclone.domain.lfric import KernCallArgList, LFRicKern
+            kerns = psy.invokes.invoke_list[0].schedule.walk(LFRicKern)
+            if len(kerns) != 1:
+                raise Unsupported(f"{len(kerns)} kernels in the schedule")
+            alist = KernCallArgList(kerns[0])
+            alist.generate()
+            res["pcall"] = itemise_psyir(alist.arglist, alist.psyir_arglist, md)
+            res["hp"] = True
+        except Unsupported as err:
+            res["notes"]["psyir_unsupported"] = str(err)
     os.unlink(kpath)
     os.unlink(apath)
     return res
@@ -196,7 +212,8 @@ def m_eval_before_quadrature(case, clause, detail, finding):
         return False
     if not any(s != "evaluator" for s in shapes[shapes.index("evaluator") + 1:]):
         return False
-    if clause not in ("CallMatchesStub", "CallFollowsDoc"):
+    if clause not in ("CallMatchesStub", "CallFollowsDoc",
+                      "PsyirCallMatchesStub"):
         return False
     ew, gw = _roles(detail)
     return (ew[0] in ("basis", "diff_basis") and ew[0] == gw[0]
@@ -206,7 +223,8 @@ def m_eval_before_quadrature(case, clause, detail, finding):
 def m_stub_stencil_size_rank(case, clause, detail, finding):
     '''kernel with a CROSS2D stencil and another stencil: the stub declares
     every stencil size with the rank of the first stencil argument.'''
-    if clause not in ("CallMatchesStub", "StubFollowsDoc"):
+    if clause not in ("CallMatchesStub", "StubFollowsDoc",
+                      "PsyirCallMatchesStub"):
         return False
     sten = [a["st"] for a in case["md"]["args"] if a["st"] != "none"]
     if "cross2d" not in sten or all(s == "cross2d" for s in sten):
@@ -273,7 +291,8 @@ def enumerate_metadata(tier, cov):
 def decide(cases, tmp, cov, workers=None):
     '''TLC decides the clauses for the cases; returns the VERDICT records.'''
     path = os.path.join(tmp, "cases.json")
-    slim = [{k: c[k] for k in ("id", "md", "hs", "stub", "hc", "call")}
+    slim = [{k: c[k] for k in ("id", "md", "hs", "stub", "hc", "call", "hp",
+                               "pcall")}
             for c in cases]
     with open(path, "w") as f:
         json.dump(slim, f, separators=(",", ":"))
@@ -319,12 +338,14 @@ def run(tier):
     # ------------------------------------------------------------- evidence
     n = len(cases)
     unsupported = [c for c in cases if "stub_unsupported" in c["notes"]
-                   or "call_unsupported" in c["notes"]]
+                   or "call_unsupported" in c["notes"]
+                   or "psyir_unsupported" in c["notes"]]
     both = sum(1 for c in cases if c["hs"] and c["hc"])
     kinds = {}
     for c in cases:
         kinds[_kind(c["md"])] = kinds.get(_kind(c["md"]), 0) + 1
-    cov["traces_validated_against_impl"] = sum(c["hs"] + c["hc"] for c in cases)
+    cov["traces_validated_against_impl"] = sum(c["hs"] + c["hc"] + c["hp"]
+                                               for c in cases)
     cov["evaluations"] = n
     cov["distinct_nontrivial"] = both
     cov["metadata"] = n
@@ -333,7 +354,9 @@ def run(tier):
     cov["call_refused"] = sum(1 for c in cases if "call_refused" in c["notes"])
     cov["unsupported"] = len(unsupported)
     cov["divergences"] = 0
-    cov["positions_compared"] = sum(len(c["call"]) + len(c["stub"]) for c in cases)
+    cov["positions_compared"] = sum(len(c["call"]) + len(c["stub"])
+                                    + len(c["pcall"]) for c in cases)
+    cov["psyir_arglists"] = sum(1 for c in cases if c["hp"])
     cov["failing_positions"] = len(verdicts)
     cov["kernel_kinds"] = kinds
     cov["refusal_samples"] = sorted({
